@@ -3,6 +3,7 @@
 -/
 import PLS.Model.Lsp
 import PLS.Props.C03
+import PLS.Lemmas.Span
 namespace PLS
 
 /-- UTF-16 length of a character / a prefix (what LSP `character` counts) -/
@@ -103,13 +104,116 @@ theorem C15_param_range_wellformed (f : Path) (a : Arg) :
     | _ => False := by
   simp [argUsage, Loc.wellFormed, spanLoc]
 
-/-- **C15 (string usages drop one column at each end of the literal's range)**: exact for a plain
-    one-line `"name"` / `'name'` literal, off for prefixed and triple-quoted literals, and
-    ill-formed when the literal ends on a later line at a smaller column. -/
-theorem C15_string_usage_span (f : Path) (s : String) (r : Range) :
-    match strUsage f (· + 1) (· - 1) (s, r) with
-    | .usage u => u.line = r.line ∧ u.startChar = r.col + 1 ∧ u.endChar = r.endCol - 1
+/-- what `stringNameSpan` answers when some line of the literal spells the name as a whole word -/
+theorem stringNameSpan_found (lines : List Chars) (name : Chars) (line col endLine endCol : Nat)
+    (k : Nat × Nat × Nat)
+    (h : (List.range (endLine + 1 - line)).findSome? (fun k =>
+      match literalSegment lines line col endLine endCol (line + k) with
+      | none => none
+      | some (s, seg) =>
+        (wordOccAux name none 0 seg).map (fun off => (line + k, s + off, s + off + blen name))) = some k) :
+    line ≤ k.1 ∧ k.1 ≤ endLine ∧ k.2.2 = k.2.1 + blen name ∧
+    ∃ L pre post, lines[k.1 - 1]? = some L ∧ L = pre ++ name ++ post ∧ blen pre = k.2.1 := by
+  obtain ⟨i, hi, hk⟩ := List.exists_of_findSome?_eq_some h
+  have hi' : i < endLine + 1 - line := by simpa using hi
+  cases hseg : literalSegment lines line col endLine endCol (line + i) with
+  | none => simp [hseg] at hk
+  | some p =>
+    obtain ⟨s, seg⟩ := p
+    simp only [hseg, Option.map_eq_some_iff] at hk
+    obtain ⟨off, hoff, rfl⟩ := hk
+    obtain ⟨pre', post', hs, hb, ha⟩ := wordOccAux_spells name seg none 0 off hoff
+    refine ⟨by omega, by omega, rfl, ?_⟩
+    obtain ⟨L, p, q, hL, hLs, hpb⟩ := literalSegment_spec _ _ _ _ _ _ _ _ hseg
+    refine ⟨L, p ++ pre', post' ++ q, hL, ?_, ?_⟩
+    · rw [hLs, hs]; simp [List.append_assoc]
+    · rw [blen_append, hpb, hb]
+
+/-- **C15 (a fixture named in a string literal is reported at the name's own place).** The usage
+    recorded for a name in `usefixtures("…")`, `pytestmark` or an indirect `parametrize` either
+    lies on a line of the literal where the source text, at exactly the recorded byte columns,
+    spells the name (whatever prefix, quote style or continuation line the literal has, and
+    however many names share one string), or - when no line of the literal spells the name as a
+    whole word (escape sequences, implicit concatenation, a line break in the name) - is the span
+    between the first and the last column of the literal. In both cases the end is not before the
+    start. -/
+theorem C15_string_usage_span (f : Path) (lines : List Chars) (s : String) (r : Range) :
+    match strUsage f lines (s, r) with
+    | .usage u =>
+      u.startChar ≤ u.endChar ∧
+      ((r.line ≤ u.line ∧ u.line ≤ r.endLine ∧ u.endChar = u.startChar + blen s.toList ∧
+        ∃ L pre post, lines[u.line - 1]? = some L ∧ L = pre ++ s.toList ++ post ∧ blen pre = u.startChar) ∨
+      (u.line = r.line ∧ u.startChar = r.col + 1 ∧ u.endChar = max (r.endCol - 1) (r.col + 1)))
     | _ => False := by
-  simp [strUsage]
+  simp only [strUsage, stringNameSpan]
+  split
+  · simp only [Option.getD_none]
+    exact ⟨by omega, Or.inr ⟨by trivial, by trivial, by trivial⟩⟩
+  · cases hf : (List.range (r.endLine + 1 - r.line)).findSome? (fun k =>
+        match literalSegment lines r.line r.col r.endLine r.endCol (r.line + k) with
+        | none => none
+        | some (s', seg) =>
+          (wordOccAux s.toList none 0 seg).map (fun off => (r.line + k, s' + off, s' + off + blen s.toList))) with
+    | none =>
+      simp only [Option.getD_none]
+      exact ⟨by omega, Or.inr ⟨by trivial, by trivial, by trivial⟩⟩
+    | some k =>
+      have h := stringNameSpan_found lines s.toList r.line r.col r.endLine r.endCol k hf
+      simp only [Option.getD_some]
+      exact ⟨by omega, Or.inl h⟩
+
+/-- **C15 (a one-line literal `prefix"name"`)**: for an identifier between two quotes on one
+    line - after any string prefix - the span is the text between the quotes. With an empty prefix
+    this is what was recorded before the repair, so the repair changes nothing for the literals
+    that were already right; with `r` / `b` / `u` it is the case the old `+1 / -1` rule missed. -/
+theorem C15_oneline_literal_span (f : Path) (pre pfx post : Chars) (s : String) (q : Char) (ln : Nat)
+    (lines : List Chars) (hs : s.toList ≠ []) (hw : ∀ c ∈ s.toList, isWordChar c = true)
+    (hq : isQuote q = true) (hpfx : ∀ c ∈ pfx, isQuote c = false)
+    (hl : lines[ln - 1]? = some (pre ++ (pfx ++ q :: (s.toList ++ [q])) ++ post)) :
+    strUsage f lines (s, ⟨ln, blen pre, ln, blen pre + (blen pfx + blen s.toList + 2)⟩) =
+      .usage ⟨s, f, ln, blen pre + blen pfx + 1, blen pre + blen pfx + 1 + blen s.toList⟩ := by
+  have hqc : q = '"' ∨ q = '\'' := by simpa [isQuote] using hq
+  have hq1 : clen q = 1 := by rcases hqc with rfl | rfl <;> decide
+  have hqw : isWordChar q = false := by rcases hqc with rfl | rfl <;> decide
+  have hr : List.range (ln + 1 - ln) = [0] := by
+    have : ln + 1 - ln = 1 := by omega
+    rw [this]; rfl
+  have hlen : blen (pfx ++ q :: (s.toList ++ [q])) = blen pfx + blen s.toList + 2 := by
+    simp only [blen, blen_append, hq1]; omega
+  have htw : (pfx ++ q :: (s.toList ++ [q])).takeWhile (fun c => !isQuote c) = pfx := by
+    rw [List.takeWhile_append_of_pos (by intro c hc; simp [hpfx c hc])]
+    simp [List.takeWhile, hq]
+  have hdw : (pfx ++ q :: (s.toList ++ [q])).dropWhile (fun c => !isQuote c) = q :: (s.toList ++ [q]) := by
+    rw [List.dropWhile_append_of_pos (by intro c hc; simp [hpfx c hc])]
+    simp [List.dropWhile, hq]
+  have hany : (pfx ++ q :: (s.toList ++ [q])).any isQuote = true := by simp [hq]
+  have hseg : literalSegment lines ln (blen pre) ln (blen pre + (blen pfx + blen s.toList + 2)) (ln + 0) =
+      some (blen pre + blen pfx, q :: (s.toList ++ [q])) := by
+    simp only [literalSegment, Nat.add_zero, hl, beq_self_eq_true, if_true]
+    rw [List.append_assoc, bsliceFrom_append]
+    have : blen pre + (blen pfx + blen s.toList + 2) - blen pre = blen (pfx ++ q :: (s.toList ++ [q])) := by
+      rw [hlen]; omega
+    simp only [this, bsliceTo_append, Option.map_some, skipStringPrefix, hany, if_true, htw, hdw]
+  have hocc := wordOccAux_after_quote s.toList [q] q hs hqw hw (by simp [hqw])
+  have hnl : s.toList.contains '\n' = false := by
+    cases hc : s.toList.contains '\n' with
+    | false => rfl
+    | true =>
+      have := hw '\n' (by simpa using hc)
+      exact absurd this (by decide)
+  simp only [strUsage, stringNameSpan, hnl, Bool.false_eq_true, if_false, hr, List.findSome?_cons, hseg, hocc,
+    Option.map_some, hq1, Option.getD_some]
+  rfl
+
+/-- the model on the forms the old rule got wrong (tests of the definitions, not theorems):
+    a raw literal, a triple-quoted literal continued on the next line, two names in one
+    `parametrize` string, a name that is also the prefix letter, and the fallback for a literal
+    whose source text does not spell the name -/
+example : stringNameSpan ["@pytest.mark.usefixtures(r\"db\")".toList] "db".toList 1 25 1 30 = (1, 27, 29) := by decide
+example : stringNameSpan ["@pytest.mark.usefixtures(\"\"\"".toList, "db\"\"\")".toList] "db".toList 1 25 2 5 = (2, 0, 2) := by decide
+example : stringNameSpan ["@pytest.mark.parametrize(\"ab, a\", [], indirect=True)".toList] "a".toList 1 25 1 32 = (1, 30, 31) := by decide
+example : stringNameSpan ["@pytest.mark.usefixtures(r\"r\")".toList] "r".toList 1 25 1 29 = (1, 27, 28) := by decide
+example : stringNameSpan ["@pytest.mark.usefixtures(\"d\\x62\")".toList] "db".toList 1 25 1 32 = (1, 26, 31) := by decide
+example : stringNameSpan ["@pytest.mark.usefixtures(\"\"\"".toList, "db\"\"\")".toList] "\ndb".toList 1 25 2 5 = (1, 26, 26) := by decide
 
 end PLS
